@@ -165,12 +165,19 @@ Theorem fast_generic_carriers_agree : forall x : float,
   M5.gsqrt M5.NumXFfast x = M5.gsqrt NumXFg x.
 Proof. exact fast_generic_sqrt. Qed.
 
-(* known finding F-GJ-SINGULAR-PANIC: the two paths do NOT agree in the outcome kind on a singular system
-   (Float64: error, generic: panic) - exhibited by the C04 model on binary64 *)
-Theorem fast_generic_singular_outcome_refuted :
+(* singular systems: "fast paths equal generic paths" holds for the OUTCOME KIND too (former known finding
+   F-GJ-SINGULAR-PANIC, repaired in /repo 74e12ad: the generic path panicked where the Float64 path returned an
+   error).  For every carrier, size, mask, variant (plain / upper triangular) and input the model of HEAD gives
+   the same outcome - Ok with the same state, or the same error - on both paths, for gaussJordan.Run and for
+   the three modes of matrixInverse.Run; on the former witness [[0]] (binary64) both return the error. *)
+Theorem fast_generic_singular_outcome_agree :
+  (forall A (N : Num A) (ut : bool) (n : nat) (msk : list bool) (s : M4.st),
+      M4.gj_run N true ut n msk s = M4.gj_run N false ut n msk s) /\
+  (forall A (N : Num A) (mode : M4.inv_mode) (n : nat) (msk : list bool) (m : list (list A)),
+      M4.m_inverse N true mode n msk m = M4.m_inverse N false mode n msk m) /\
   M4.gj_run NumF true false 1 [true] (M4.mkSt [[0%float]] [[1%float]] [1%float]) = M4.ErrSingular /\
-  M4.gj_run NumF false false 1 [true] (M4.mkSt [[0%float]] [[1%float]] [1%float]) = M4.PanicSingular.
-Proof. exact gj_singular_refuted. Qed.
+  M4.gj_run NumF false false 1 [true] (M4.mkSt [[0%float]] [[1%float]] [1%float]) = M4.ErrSingular.
+Proof. exact (conj gj_outcome_path_independent (conj inverse_outcome_path_independent gj_singular_agree)). Qed.
 
 (* (5) Jacobian / Hessian helpers: entries are the partial derivatives (for f given by expressions) *)
 Theorem jacobian_entries : forall (es : list expr) (xs : list R) i j,
